@@ -14,7 +14,7 @@ struct M {
   W w;
   uint16_t rm = 0;                    // Receive Maximum of the current connection
   uint16_t acked[8]; int acked_upto[8]; int nacked = 0;  // (pid, packet-log watermark) the broker acknowledged on the current connection
-  int npub = 0, ncancel = 0, nreconn = 0; uint16_t rec_pid[8]; int rec_epoch[8]; int nrec = 0;
+  int npub = 0, ncancel = 0, nreconn = 0, nrejected = 0; uint16_t rec_pid[8]; int rec_epoch[8]; int nrec = 0;
   bool is_acked(uint16_t pid, int idx) const { for (int i = 0; i < nacked; i++) if (acked[i] == pid && idx < acked_upto[i]) return true; return false; }
   // QoS>0 PUBLISH packets handed to the stream on this connection and not yet acknowledged by the broker
   int inflight(uint16_t* oldest = nullptr) {
@@ -50,7 +50,7 @@ extern "C" void h_c07(void) {
   w.start(); bool ok = w.establish(); vk_assert(ok, "first connection attempt");
   m->connack_rm();
   for (int step = 0; step < VK_STEPS; step++) {
-    uint32_t ev = vk_choose(5);
+    uint32_t ev = vk_choose(6);
     switch (ev) {
       case 0: { if (m->npub >= VK_PUBS) vk_assume(0); m->npub++; if (vk_choose(2)) w.publish<qos_e::at_least_once>("t", "p"); else { w.publish<qos_e::exactly_once>("t", "p"); vk_reach("qos2-publish"); } vk::drain(); break; }
       case 1: { auto* s = vk::pending_write(); if (!s) vk_assume(0); w.finish_write(s, s->wdata.size(), {}); vk::drain(); break; }
@@ -70,6 +70,10 @@ extern "C" void h_c07(void) {
                 w.feed_all(); vk::drain(); vk_reach("acked"); break; }
       case 3: { if (m->ncancel >= 1) vk_assume(0); int j = -1; for (int i = 0; i < w.nops; i++) if (!w.ops[i].done) { j = i; break; } if (j < 0) vk_assume(0);
                 m->ncancel++; w.cancel_op(j); vk::drain(); break; }
+      case 5: { // a request that validation rejects (wildcard in a topic name) consumes no quota and must not return any
+                if (m->nrejected >= 1) vk_assume(0); m->nrejected++;
+                int a = vk_choose(2) ? w.publish<qos_e::at_least_once>("t/#", "p") : w.publish<qos_e::exactly_once>("t/#", "p"); vk::drain();
+                vk_assert(w.ops[a].done == 1 && w.ops[a].ec != 0, "a publish with a wildcard in its topic name is rejected at once"); vk_reach("rejected-request"); break; }
       default: { if (m->nreconn >= 1 || !w.connected()) vk_assume(0); m->nreconn++;
                 w.drop_connection(); vk::drain(); bool ok2 = w.establish(); vk_assert(ok2, "client reconnects after a connection loss");
                 m->connack_rm(); vk_reach("reconnected"); break; }
